@@ -267,8 +267,11 @@ def snapshot(reg, mdreg):
             mdreg[id(m)] = ('unk', 9000 + len(mdreg))
         return mdreg[id(m)][1]
 
+    budget = [400]       # a shared or cyclic branch would otherwise be unfolded without end
+
     def build(o, depth=0):
         import emdfile
+        budget[0] -= 1
         tp = o._treepath
         if tp is None:
             sp = None
@@ -279,11 +282,37 @@ def snapshot(reg, mdreg):
         return {'id': ident(o), 'isroot': isinstance(o, emdfile.Root), 'name': o.name,
                 'sroot': None if o._root is None else ident(o._root), 'spath': sp,
                 'mds': [[k, mdident(m), m.name, int(m._params.get('tok', -1))] for k, m in o._metadata.items()],
-                'kids': [build(v, depth + 1) for v in o._branch._dict.values()] if depth < 60 else [],
+                'kids': [build(v, depth + 1) for v in o._branch._dict.values()] if depth < 40 and budget[0] > 0 else [],
                 'keys': list(o._branch._dict.keys())}
     tops = [build(o) for i, o in sorted(reg.items()) if id(o) not in child_of]
     nparents = {i: len(child_of.get(id(o), [])) for i, o in reg.items()}
     return {'tops': tops, 'nparents': nparents}
+
+
+_MDSUB = []
+
+
+def MDSub():
+    import emdfile
+    if not _MDSUB:
+        _MDSUB.append(type('CalibrationLike', (emdfile.Metadata,), {}))
+    return _MDSUB[0]
+
+
+def md_share_state(reg):
+    """two distinct Metadata objects anywhere in the forest whose fields live in one dict: a 'copy' that is not independent"""
+    seen = {}
+    for o in reg.values():
+        stack = [o]
+        n = 0
+        while stack and n < 400:
+            x = stack.pop(); n += 1
+            for k, m in x._metadata.items():
+                prev = seen.setdefault(id(m._params), m)
+                if prev is not m:
+                    return f'entry {k!r} shares its fields with another Metadata object'
+            stack.extend(x._branch._dict.values())
+    return None
 
 
 def live_checks(reg):
@@ -291,10 +320,14 @@ def live_checks(reg):
     node.root is R and R.tree('/'+p) is node."""
     import emdfile
     bad = []
+    budget = [400]
     for i, o in reg.items():
         if isinstance(o, emdfile.Root):
             def rec(n, path):
                 for k, c in n._branch._dict.items():
+                    budget[0] -= 1
+                    if budget[0] < 0:
+                        return
                     p = path + [k]
                     if c.root is not o:
                         bad.append(['root', p])
@@ -308,7 +341,7 @@ def live_checks(reg):
                             bad.append(['own-path', p])
                     except Exception:
                         bad.append(['own-path-raises', p])
-                    if len(p) < 60:
+                    if len(p) < 40:
                         rec(c, p)
             rec(o, [])
     return bad
@@ -320,7 +353,8 @@ def run_scenario(sc):
     for o in sc['objs']:
         obj = emdfile.Root(name=o['name']) if o['root'] else emdfile.Node(name=o['name'])
         for m in o['mds']:
-            md = emdfile.Metadata(name=m['name'], data={'tok': m['tok']})
+            # every other entry is an instance of a user-defined Metadata subclass
+            md = (MDSub() if m['mdid'] % 2 else emdfile.Metadata)(name=m['name'], data={'tok': m['tok']})
             obj._metadata[m['key']] = md
             mdreg[id(md)] = (md, m['mdid'])
         reg[o['id']] = obj
@@ -375,7 +409,7 @@ def run_scenario(sc):
                 if id(m) not in mdreg:
                     mdreg[id(m)] = (m, n_md); n_md += 1
         snap0 = snapshot(reg, mdreg)
-        steps.append({'ok': ok, 'exc': exc, 'post': snap0, 'live_bad': live_checks(reg)})
+        steps.append({'ok': ok, 'exc': exc, 'post': snap0, 'live_bad': live_checks(reg), 'md_shared': md_share_state(reg)})
     return {'init': None, 'steps': steps, 'final': snap0, 'pre0': None}
 
 
@@ -526,6 +560,8 @@ def oracle_c13(case, res):
         where = f'op#{j} {op}'
         pidx, idx = index(pre), index(post)
         allowed = ref.allowed(op)
+        if st.get('md_shared'):
+            return {'key': 'md-copy-not-independent', 'what': f"{where}: {st['md_shared']}"}
         if allowed != st['ok']:
             return None      # the forests diverged from the reference: C12's business, not C13's
         if allowed and st['ok'] and op[0] in ('graft', 'cut', 'fadd'):
